@@ -451,13 +451,33 @@ type fnAnalysis struct {
 	joins   map[string]int
 	widen   bool
 	caps    map[*loopInfo]int
-	flags   map[*ssa.Phi]int // flag phis (bool phis of constants) -> bit position
+	flags   map[ssa.Value]int // partitioning booleans (see flagVals) -> bit position
 }
 
-// flagPhis: boolean phis all of whose incoming values are constants; the state is
-// partitioned by their value so that later tests of the flag are path-sensitive.
-func flagPhis(fn *ssa.Function) map[*ssa.Phi]int {
-	out := map[*ssa.Phi]int{}
+// flagVals: boolean values the state is partitioned by, so that later tests of the same value
+// are path-sensitive: phis all of whose incoming values are constants, and any boolean value
+// (a phi with a computed edge, a comparison, a call result) that two or more branches test.
+func flagVals(fn *ssa.Function) map[ssa.Value]int {
+	out := map[ssa.Value]int{}
+	tests := map[ssa.Value]int{}
+	var order []ssa.Value
+	for _, b := range fn.Blocks {
+		if len(b.Instrs) == 0 {
+			continue
+		}
+		if iff, ok := b.Instrs[len(b.Instrs)-1].(*ssa.If); ok {
+			cond := iff.Cond
+			if u, ok := cond.(*ssa.UnOp); ok && u.Op == token.NOT {
+				cond = u.X
+			}
+			if _, isConst := cond.(*ssa.Const); !isConst {
+				if tests[cond] == 0 {
+					order = append(order, cond)
+				}
+				tests[cond]++
+			}
+		}
+	}
 	for _, b := range fn.Blocks {
 		for _, ins := range b.Instrs {
 			phi, ok := ins.(*ssa.Phi)
@@ -476,6 +496,11 @@ func flagPhis(fn *ssa.Function) map[*ssa.Phi]int {
 			if all && len(out) < 3 {
 				out[phi] = len(out)
 			}
+		}
+	}
+	for _, v := range order {
+		if _, done := out[v]; !done && tests[v] >= 2 && len(out) < 4 {
+			out[v] = len(out)
 		}
 	}
 	return out
@@ -601,7 +626,7 @@ func ctxKey(b *ssa.BasicBlock, ctx []int) string {
 
 func (e *rangeEngine) analyse(fn *ssa.Function, forceWiden bool) *fnRes {
 	a := &fnAnalysis{e: e, fn: fn, in: map[string]*rstate{}, joins: map[string]int{}, widen: forceWiden, caps: map[*loopInfo]int{}}
-	a.flags = flagPhis(fn)
+	a.flags = flagVals(fn)
 	a.res = &fnRes{fn: fn, obs: map[ssa.Instruction]map[ssa.Value]aval{}, ret: botVal(), retF: fbot(), exitCells: map[string]aval{}, weak: map[string]aval{}, callArgs: map[*ssa.Function][]aval{}, fieldsRead: map[string]bool{}, retsUsed: map[*ssa.Function]bool{}, vals: map[ssa.Value]aval{}}
 	if len(fn.Blocks) == 0 {
 		return a.res
@@ -638,19 +663,38 @@ func (e *rangeEngine) analyse(fn *ssa.Function, forceWiden bool) *fnRes {
 		a.block(it.b, cur)
 		// successors
 		last := it.b.Instrs[len(it.b.Instrs)-1]
+		// a partitioning value computed in this block is unknown again (a new loop iteration recomputes it)
+		fl := it.fl
+		for v, bit := range a.flags {
+			if ins, ok := v.(ssa.Instruction); ok && ins.Block() == it.b {
+				if _, isPhi := v.(*ssa.Phi); !isPhi && fl[bit] != '?' {
+					bs := []byte(fl)
+					bs[bit] = '?'
+					fl = string(bs)
+				}
+			}
+		}
 		for si, succ := range it.b.Succs {
 			es := cur
+			sfl := fl
 			if iff, ok := last.(*ssa.If); ok {
 				// a test of a partitioned flag follows only the matching branch
 				cond, pol := iff.Cond, si == 0
 				if u, ok := cond.(*ssa.UnOp); ok && u.Op == token.NOT {
 					cond, pol = u.X, !pol
 				}
-				if phi, ok := cond.(*ssa.Phi); ok {
-					if bit, ok := a.flags[phi]; ok && it.fl[bit] != '?' {
-						if (it.fl[bit] == '1') != pol {
+				if bit, ok := a.flags[cond]; ok {
+					if fl[bit] != '?' {
+						if (fl[bit] == '1') != pol {
 							continue
 						}
+					} else {
+						bs := []byte(fl)
+						bs[bit] = '0'
+						if pol {
+							bs[bit] = '1'
+						}
+						sfl = string(bs)
 					}
 				}
 				es = cur.clone()
@@ -698,7 +742,7 @@ func (e *rangeEngine) analyse(fn *ssa.Function, forceWiden bool) *fnRes {
 			}
 			// phis
 			ns := es
-			nfl := it.fl
+			nfl := sfl
 			if len(succ.Instrs) > 0 {
 				if _, ok := succ.Instrs[0].(*ssa.Phi); ok {
 					ns = es.clone()
@@ -722,15 +766,18 @@ func (e *rangeEngine) analyse(fn *ssa.Function, forceWiden bool) *fnRes {
 						}
 						edge := phi.Edges[pi]
 						if bit, ok := a.flags[phi]; ok {
+							bs := []byte(nfl)
+							bs[bit] = '?'
 							if c, ok := edge.(*ssa.Const); ok && c.Value != nil && c.Value.Kind() == constant.Bool {
-								bs := []byte(nfl)
 								if constant.BoolVal(c.Value) {
 									bs[bit] = '1'
 								} else {
 									bs[bit] = '0'
 								}
-								nfl = string(bs)
+							} else if eb, isFlag := a.flags[edge]; isFlag {
+								bs[bit] = nfl[eb]
 							}
+							nfl = string(bs)
 						}
 						if isIntType(phi.Type()) {
 							v := a.get(es, edge)
